@@ -12,7 +12,7 @@ RULE = ("histories of Namespace operations {set, setattr, get, get-default, cont
         "update(ns), update(only_unset), clone, items/keys/values(branches), as_dict + namespace_to_dict, ==/!= against a built "
         "value, Namespace(dict), dict_to_namespace(dict)} starting from an empty namespace; keys of depth 1-3 over ordinary names "
         "and the method-name clashes; scalar/None/list/tuple/dict/namespace values. quick: every history of length <=2 over a "
-        "fixed operation alphabet (78 operations), 400 equality histories [ns[k]=V; (random step); ns == re-ordered or "
+        "fixed operation alphabet (78 operations), 16 hand-written histories through dicts and Namespaces inside dicts, 400 equality histories [ns[k]=V; (random step); ns == re-ordered or "
         "one-place-perturbed V], and 1500 seeded random histories of length 3-40 (thorough: also length-3 products and 30000 random); "
         "after EVERY step the output and the whole __dict__ tree are compared with model and spec. "
         "non-trivial = history with at least one successful mutation; distinct = distinct (history, observations)")
@@ -22,46 +22,47 @@ TRUSTED = [
     "translator of dir(Namespace) into coq/Gen/C11Clash.v (the theorems hold for ANY clash set)",
 ]
 ASSUMPTIONS = [
-    "user key segments do not start with U+200B and are not attribute names of dict other than Namespace's own (hasattr(dict, k) is modelled as False)",
+    "user key segments do not start with U+200B; Namespace values are given in stored form (as setattr builds them)",
     "exception classes are not compared (the property speaks of agreement with a nested dictionary, not of error types)",
 ]
 EXHAUSTIVE = {"quick": False, "thorough": False}
-FINDING_CLASSES = {1: "path-through-dict"}
+FINDING_CLASSES = {1: "path-through-dict"}   # class 1 exists only in the judge of the pre-fix code (`judge`); judge_fixed has classes 0/2/3
 # the finding was repaired in /repo (b856eae): the judge compares with the model of the patched code (Model/C11NsFixed.v)
 JUDGE = "judge_fixed"
 META = {
-    "level_text": "Proved in Coq for ALL inputs of the modelled space (coq/Properties/C11.v, every theorem closed under the global "
-                  "context): ns_refines_dict — for ANY clash set and ANY history (unbounded length, key depth and value size) of "
+    "level_text": "Proved in Coq for ALL inputs of the modelled space, about the CURRENT code (after the repair b856eae, model "
+                  "coq/Model/C11NsFixed.v; coq/Properties/C11.v, every theorem closed under the global context): "
+                  "ns_refines_dict — for ANY clash set and ANY history (unbounded length, key depth and value size) of "
                   "ns[k]=v, setattr, ns[k], get(k,d), k in ns, del, pop, update(value,k,only_unset), clone, "
                   "items/keys/values(branches) and as_dict from the empty Namespace, the Gallina model of "
                   "jsonargparse.Namespace answers every step exactly as an ordered nested dictionary addressed by paths does "
                   "and its stored __dict__ tree, clash marks removed, IS that dictionary after every step; keys the code rejects "
-                  "(space, empty segment) are included (both fail, state unchanged). Hypothesis (one executable classifier, "
-                  "hist_class = 0): key segments do not start with U+200B, Namespace values are in stored form, and no addressed "
-                  "path passes through a dict-valued leaf. step_commutes / ns_refines_dict_from: the same from any well-formed "
-                  "state; items_agree and as_dict_agrees (no hypothesis at all): items/keys/values and as_dict of any tree are "
-                  "those of the dictionary; dotted_eq_stepwise / stepwise_eq_dotted: reading s1.s2...sn as one dotted string is "
-                  "reading ns[s1][s2]...[sn] for any depth; clash_names_transparent: the user-visible behaviour does not depend "
-                  "on the clash set (method-name keys are stored and returned like any other); failed_op_changes_nothing; "
-                  "eq_agrees: Python's == on stored trees (argparse __eq__, order-insensitive dict equality) is == on the "
-                  "user-visible dictionaries, for any two values in stored form at every depth. "
-                  "fixed_refines_through_dicts: the model of the patched code equals the dictionary on a kernel-evaluated "
-                  "product of ~37000 histories THROUGH dict-valued leaves (length <=2 over 73 operations, length 3 after a dict store). "
-                  "path_through_dict_refuted: outside the guard the refinement fails on the pinned code (ns['a']={'b':1}; "
-                  "ns['a.b'] raises) — open finding path-through-dict with a repair in fixes/C11-path-through-dict.patch.",
+                  "(space, empty segment) are included (both fail, state unchanged); dotted keys THROUGH dict-valued leaves and "
+                  "through Namespaces stored inside dicts are included — there is no path-through-dict guard any more. "
+                  "Hypothesis (one executable classifier, hist_class_fx = 0): key segments do not start with U+200B and values "
+                  "are in stored form along every path (wf2). step_commutes / ns_refines_dict_from: the same per step and from "
+                  "any well-formed state; dotted_eq_stepwise: reading s1.s2...sn as one dotted string is reading "
+                  "ns[s1][s2]...[sn], any depth, through dicts, no hypothesis on the tree; clash_names_transparent: the "
+                  "user-visible behaviour does not depend on the clash set (method-name keys are stored and returned like any "
+                  "other); failed_op_changes_nothing; items_agree, as_dict_agrees (no hypothesis), eq_agrees (Python's == on "
+                  "stored trees is == on the dictionaries, order-insensitive, for values in stored form at every depth). "
+                  "fixed_refines_through_dicts: an older kernel-evaluated product (~37000 histories incl. operations outside the "
+                  "proved core) kept as a cross-check. The theorems about the code BEFORE the repair are kept as *_prefix, with "
+                  "path_through_dict_refuted (ns['a']={'b':1}; ns['a.b'] raised) as regression witness of the fixed finding.",
     "level_note": "Only exercised by the correspondence (model AND spec agreement demanded per step, judged inside Coq, not "
                   "proved): update(namespace), Namespace(dict), dict_to_namespace, namespace_to_dict (= as_dict, no shared "
                   "branch), == / != as a step of histories (the standalone theorem eq_agrees needs stored form at every depth, which "
-                  "the refinement invariant does not carry below lists), "
-                  "step-by-step reading as an operation of histories, clone's no-aliasing check, and all histories through a "
-                  "dict-valued leaf. Not modelled: exception classes, aliasing between a stored value and the caller's object, "
-                  "as_flat, get_sorted_keys, meta keys / strip_meta, non-string dict keys, dict keys that are attribute names of "
-                  "dict but not of Namespace (hasattr(dict,k) taken as False). Trusted: Coq kernel + vm_compute; faithfulness of "
-                  "coq/Model/Ns.v beyond the tested histories; tie/impl/c11_ns.py and the Gallina printer; translator of "
-                  "dir(Namespace) (the theorems hold for any clash set).",
-    "technique": "Rocq refinement proof (Gallina model of Namespace vs ordered nested-dictionary spec, step simulation lifted "
-                 "over fold on histories by induction) + correspondence over exhaustive short and seeded random histories of the "
-                 "real class, verdicts (model agreement / guard class / spec agreement) computed in Coq by vm_compute",
+                  "the refinement invariant does not carry below lists), step-by-step reading as a step of histories (covered by "
+                  "the standalone theorem dotted_eq_stepwise), clone's no-aliasing check. Not modelled: exception classes, "
+                  "aliasing between a stored value and the caller's object, as_flat, get_sorted_keys, meta keys / strip_meta, "
+                  "non-string dict keys. Trusted: Coq kernel + vm_compute; faithfulness of coq/Model/C11NsFixed.v (with the "
+                  "shared parts of coq/Model/Ns.v) beyond the tested histories; tie/impl/c11_ns.py and the Gallina printer; "
+                  "translator of dir(Namespace) (the theorems hold for any clash set).",
+    "technique": "Rocq refinement proof in two layers (Gallina model of the patched Namespace vs path operations on the un-marked "
+                 "value tree, by induction on the path uniformly for Namespace and dict parents; the nested-dictionary spec's "
+                 "node operations are those value operations), step simulation lifted over histories by induction + "
+                 "correspondence over exhaustive short and seeded random histories of the real class, verdicts (model agreement "
+                 "/ guard class / spec agreement) computed in Coq by vm_compute",
 }
 
 NAMES = ["a", "b", "items", "keys", "get", "update", "pop", "clone", "values", "as_dict"]
@@ -273,9 +274,27 @@ def eq_family(rng, n):
     return cases
 
 
+def through_dict_family():
+    """hand-written histories through dict-valued leaves and through a Namespace stored INSIDE a dict (missing levels are
+    created as a dict below a dict, as a Namespace below a Namespace; clash names carry no mark inside a dict)"""
+    base = [{"op": "set", "k": "a", "v": D(b=NS(items=I(1)), items=I(2))}]
+    tails = [
+        [{"op": "set", "k": "a.b.c.d", "v": I(1)}, {"op": "get", "k": "a.b.c"}, {"op": "get", "k": "a.b.c.d"}],
+        [{"op": "set", "k": "a.c.items.keys", "v": I(1)}, {"op": "get", "k": "a.c"}, {"op": "contains", "k": "a.c.items.keys"}],
+        [{"op": "get", "k": "a.b.items"}, {"op": "del", "k": "a.b.items"}, {"op": "contains", "k": "a.b.items"}, {"op": "get", "k": "a.b"}],
+        [{"op": "pop", "k": "a.items", "dflt": I(9)}, {"op": "pop", "k": "a.items", "dflt": I(9)}, {"op": "del", "k": "a.items"}],
+        [{"op": "set", "k": "a.b.items", "v": D(x=I(3))}, {"op": "set", "k": "a.b.items.keys", "v": I(4)}, {"op": "get", "k": "a.b.items"}],
+        [{"op": "updv", "v": I(5), "k": "a.b.items", "ou": True}, {"op": "updv", "v": I(5), "k": "a.b.keys", "ou": True}, {"op": "get", "k": "a.b"}],
+        [{"op": "set", "k": "a.items.x", "v": I(1)}, {"op": "get", "k": "a.items"}, {"op": "set", "k": "a.b.items.x", "v": I(1)}, {"op": "get", "k": "a.b"}],
+        [{"op": "getsteps", "k": "a.b.items"}, {"op": "getsteps", "k": "a.items"}, {"op": "getsteps", "k": "a.b.c"}],
+    ]
+    end = [{"op": "asdict"}, {"op": "items", "br": True}, {"op": "clone"}]
+    return [base + t + end for t in tails] + [base + t for t in tails]
+
+
 def generate(rng, tier):
     alpha = small_alphabet()
-    cases = [[a] for a in alpha]
+    cases = through_dict_family() + [[a] for a in alpha]
     cases += [[a, b] for a in alpha for b in alpha]
     if tier == "thorough":
         first = [a for a in alpha if a["op"] in ("set", "initdict", "updns")]
